@@ -67,6 +67,7 @@ struct Cfg {
   int         tcp_read_chunk = 0;   // >0: every TCP read returns at most this many bytes
   int         tcp_write_chunk = 0;  // >0: every TCP send accepts at most this many bytes
   bool        server6 = false;      // second server is IPv6
+  bool        auto_io = false;      // the application services the descriptor right after each reply is queued (reply+io is one event)
 };
 
 // ------------------------------------------------------------------- events
@@ -167,8 +168,18 @@ struct Packet {
   int         kind = 0;
   int         src_server = -1; // -1: foreign address
   Bytes       data;
-  uint32_t    ttl = 0;
+  uint32_t    ttl = 0;       // smallest TTL among the answer RRs (negative answers: min(SOA ttl, SOA minimum))
   bool        carries_data = false;
+  int         on_fd = -1;    // descriptor it was queued on
+  int64_t     t_inject = 0;
+  int64_t     t_accept = -1; // virtual time at which its content first reached a callback
+  int         ev_accept = -1;
+  int64_t     t_read = -1;   // virtual time at which the library read it from the socket
+  int         ev_read = -1;
+  int         rcode = 0;
+  bool        tc = false, has_soa = false;
+  uint16_t    qclass = 1;
+  bool        rd = true, cd = false;
   std::string qname_lc; int qtype = 0;
 };
 
@@ -180,6 +191,9 @@ struct Transmission {
   int64_t     t_us = 0;
   int         answered = 0, forged = 0;
   int         token_hint = -1;
+  int         ev_index = -1;   // index of the event during which it was sent (-1: closure)
+  bool        in_timer = false; // sent while the application was processing a timer expiry
+  bool        in_closure = false;
 };
 
 struct VSock {
@@ -196,17 +210,20 @@ struct VSock {
   size_t             outparsed = 0;
   int                ntx = 0, nclose = 0;
   int                created_seq = 0;
-  int64_t            out_blocked = 0; // FS_SEND_WOULDBLOCK happened and nothing was written since
+  int64_t            out_blocked = 0;
+  std::vector<std::pair<size_t, int>> tcp_pkts; // (end offset in instream, packet serial) // FS_SEND_WOULDBLOCK happened and nothing was written since
 };
 
 struct Token {
   int         id = 0, req = -1, kind = 0, count = 0, status = -1, timeouts = -1;
   std::string result;      // canonical dump of what was delivered
   std::vector<int> markers; // packet serials the delivered data came from
+  int              neg_marker = 0; // SOA serial of a delivered negative answer (packet serial)
   std::vector<uint32_t> ttls;
   bool        issued_in_cb = false, completed_sync = false;
   bool        accepted = false; // the entry point that issued it has returned
   int64_t     t_issue = 0, t_done = 0;
+  int         ev_issue = -1, ev_done = -1;
   int         tx_at_issue = 0, tx_at_done = 0; // transmission counter snapshots
   bool        done_during_destroy = false;
   int         cbmode = 0, cbarg = 0;
@@ -251,6 +268,8 @@ struct World {
   std::vector<std::pair<std::string, int>> server_state; // (server string, success)
   std::vector<std::string> sockstate_log;
   int         cur_ev = -1;
+  bool        in_timer = false, in_closure = false;
+  std::vector<int> flush_evs; // event indexes of reinit / server membership changes (the cache must be empty after each)
   bool        nested_cb = false;
   int         cb_depth = 0;
   int         setservers_variant = -1; // last applied
